@@ -272,6 +272,42 @@ def draw_eps(r, extreme=0.1):
     return r.loguniform(1e-4, 50.0)
 
 
+NEAR_K = 4      # ulps of 1.0 (2^-53) within which a scripted uniform may sit next to one of the implementation's OWN break-points
+
+
+def near_impl_breakpoint(fu, u, want, k=NEAR_K, avoid_half=False):
+    """model and implementation returned different outputs at u.  numpy's exp/log (implementation) and libm's (Lean driver)
+    may differ by an ulp, which moves a break-point by an ulp: the difference is a float-level artefact iff the
+    implementation ITSELF returns the model's output at a point within k * 2^-53 of u, i.e. u sits within k ulps of an
+    implementation break-point separating exactly these two outputs.  Anything else stays a disagreement."""
+    for j in range(-k, k + 1):
+        if j == 0:
+            continue
+        uu = min(max(u + j * CELL, 0.0), 1 - CELL)
+        if avoid_half and uu == 0.5:
+            continue
+        if fu(uu) == want:
+            return True
+    return False
+
+
+def exp_cum_boundary(cum, u, a, b, k=NEAR_K):
+    """Exponential: with the implementation's own cumulative vector `cum` (mech._probabilities): the two selected indices
+    are adjacent among the candidates of non-zero probability and u is within k ulps (|u - c| <= k * 2^-53 * max(1, c))
+    of the cumulative boundary c that separates them"""
+    if not (isinstance(a, int) and isinstance(b, int)) or cum is None or a == b:
+        return False
+    a, b = min(a, b), max(a, b)
+    if b >= len(cum):
+        return False
+    prev = [0.0] + list(cum[:-1])
+    nz = [i for i in range(len(cum)) if cum[i] - prev[i] > 0]
+    if a not in nz or b not in nz or nz.index(b) - nz.index(a) != 1:
+        return False
+    c = cum[a]
+    return abs(u - c) <= k * CELL * max(1.0, c)
+
+
 def guard_us(u, ulps):
     """u and its neighbours `ulps` away (clamped to [0, 1)) — the model must agree on all three, else boundary"""
     lo = max(0.0, gen.offset_ulps(u, -ulps)) if u > 0 else 0.0
@@ -315,7 +351,7 @@ def check_binary(ctx, r, n):
         for ind, v in enumerate(labels):
             gu = [g for u in us for g in guard_us(u, 8)]
             lines.append(f"binary {fl(eps)} {ind} " + " ".join(fl(u) for u in gu))
-            cases.append(("out", params, v, labels, us, [sc.at_u(u, v) for u in us]))
+            cases.append(("out", params, v, labels, us, [sc.at_u(u, v) for u in us], sc))
         lines.append(f"binarylaw {fl(eps)}")
         cases.append(("law", params, labels, laws))
     outs = leanio.run_driver("Discrete", lines)
@@ -325,13 +361,17 @@ def check_binary(ctx, r, n):
             ctx.disagree("binary.driver", c[1], out, None)
             continue
         if c[0] == "out":
-            _, params, v, labels, us, impl = c
+            _, params, v, labels, us, impl, sc = c
             for i, u in enumerate(us):
                 trio = w[1 + 3 * i: 4 + 3 * i]
                 if len(set(trio)) != 1:
                     ctx.boundary_skipped += 1
                     continue
                 if labels[int(trio[1])] != impl[i]:
+                    if near_impl_breakpoint(lambda uu: sc.at_u(uu, v), u, labels[int(trio[1])]):
+                        ctx.boundary_skipped += 1
+                        ctx.count("boundary_skipped_impl_breakpoint_within_4ulp")
+                        continue
                     ctx.disagree("binary.randomise", {**params, "value": v, "u": u}, labels[int(trio[1])], impl[i])
                 else:
                     ctx.trace_ok()
@@ -489,7 +529,7 @@ def check_geometric(ctx, r, n):
                 cases.append(("noisy", c, val))
             lines.append(f"geom {v} {fl(eps)} {sens} {val} {bnd_tok(c['lower'] if c['lower'] is not None else -INF)} "
                          f"{bnd_tok(c['upper'] if c['upper'] is not None else INF)} " + " ".join(fl(u) for u in gu))
-            cases.append(("out", c, val, us, [sc.at_u(u, val) for u in us]))
+            cases.append(("out", c, val, us, [sc.at_u(u, val) for u in us], sc))
         if v == "p" and r.chance(0.3):        # the redraw at exactly 1/2 (fix f985502): stream [1/2, 1/2, u]
             u2 = r.u01()
             rng = seams.ScriptedSystemRandom(uniforms=[0.5, 0.5, u2])
@@ -608,7 +648,7 @@ def _geom_compare(ctx, cases, outs):
             noisy = [int(z) for z in w[1:]]
             continue
         if kind == "out":
-            _, _, val, us, impl = cs
+            _, _, val, us, impl, sc = cs
             noisy_now, noisy = noisy, None
             for i, u in enumerate(us):
                 trio = w[1 + 3 * i: 4 + 3 * i]
@@ -623,6 +663,10 @@ def _geom_compare(ctx, cases, outs):
                         ctx.count("geom_error_outcome_skipped")
                     continue
                 if int(trio[1]) != impl[i]:
+                    if near_impl_breakpoint(lambda uu: sc.at_u(uu, val), u, int(trio[1]), avoid_half=True):
+                        ctx.boundary_skipped += 1
+                        ctx.count("boundary_skipped_impl_breakpoint_within_4ulp")
+                        continue
                     ctx.disagree(GEOM_NAME[c["variant"]] + ".randomise", {**c, "value": val, "u": u}, int(trio[1]), impl[i])
                 else:
                     ctx.trace_ok()
@@ -931,9 +975,13 @@ def check_exponential(ctx, r, n, negative=False):
                 us += [min(max(cum + d, 0.0), 1 - CELL) for d in (-CELL, 0.0, CELL, 1e-7)]
             gu = [g for u in us for g in guard_us(u, 64)]
             lines.append(exp_line("exp", c, c[tag], gu))
-            cases.append((c, tag, us, [f(int(u * GRID)) for u in us], law))
+            def fu(uu, sc=sc, cands=laws[tag][1].mech.candidates):
+                o = sc.at_u(uu)                      # the implementation at exactly the double the model sees
+                return int(o[1:]) if cands and isinstance(o, str) and not o.startswith("ERR") else o
+            pr = getattr(sc.mech, "_probabilities", None)
+            cases.append((c, tag, us, [fu(u) for u in us], law, fu, None if pr is None else [float(z) for z in pr]))
     outs = leanio.run_driver("Discrete", lines) if lines else []
-    for (c, tag, us, impl, law), out in zip(cases, outs):
+    for (c, tag, us, impl, law, fu, cum_impl), out in zip(cases, outs):
         parts = out.split(" | ")
         if not parts[0].startswith("ok"):
             ctx.disagree("exponential.driver", c, out, None)
@@ -953,11 +1001,16 @@ def check_exponential(ctx, r, n, negative=False):
                 continue
             mo = int(trio[1]) if trio[1].isdigit() else "ERR:RuntimeError"
             if mo != impl[i]:
+                if exp_cum_boundary(cum_impl, u, mo, impl[i]) or \
+                        ((isinstance(mo, str) or isinstance(impl[i], str)) and near_impl_breakpoint(fu, u, mo)):
+                    ctx.boundary_skipped += 1
+                    ctx.count("boundary_skipped_impl_breakpoint_within_4ulp")
+                    continue
                 ctx.disagree("Exponential.randomise", {**c, "which": tag, "u": u}, mo, impl[i])
             else:
                 ctx.trace_ok()
     if cases:
-        c, tag, us, impl, law = cases[0]
+        c, tag, us, impl, law = cases[0][:5]
         ctx.sample({"family": "Exponential", "params": {k: c[k] for k in ("epsilon", "sensitivity", "monotonic", "measure", "utility", "utility_p")},
                     "law": law.brief(8)})
 
@@ -1331,7 +1384,7 @@ def cat_compare(ctx, family, cases, outs):
                 compare_law(ctx, family + ".law", {**params, "value": inv[d]}, laws[inv[d]], model,
                             extra_unc=(n + 2) * 2.0 ** -52)      # rounding of the running sum `cum_prob` / of `u * Z`
         else:
-            _, _, ranks, x, us, impl = cs
+            _, _, ranks, x, us, impl, sc = cs
             w = out.split()
             if w[0] != "ok":
                 ctx.disagree(family + ".driver", params, out, None)
@@ -1343,6 +1396,10 @@ def cat_compare(ctx, family, cases, outs):
                     ctx.boundary_skipped += 1
                     continue
                 if inv.get(trio[1], trio[1]) != impl[i]:
+                    if near_impl_breakpoint(lambda uu: sc.at_u(uu, x), u, inv.get(trio[1], trio[1])):
+                        ctx.boundary_skipped += 1
+                        ctx.count("boundary_skipped_impl_breakpoint_within_4ulp")
+                        continue
                     ctx.disagree(family + ".randomise", {**params, "value": x, "u": u}, inv.get(trio[1], trio[1]), impl[i])
                 else:
                     ctx.trace_ok()
@@ -1357,7 +1414,7 @@ def cat_output_lines(r, sc, laws, eps, triples, ranks, labels, params, lines, ca
             us += [min(max(cum + d, 0.0), 1 - CELL) for d in (-CELL, 1e-7)]
         gu = [g for u in us for g in guard_us(u, 64)]
         lines.append(cat_line("cat", eps, triples, ranks[x], gu))
-        cases.append(("out", params, ranks, x, us, [sc.at_u(u, x) for u in us]))
+        cases.append(("out", params, ranks, x, us, [sc.at_u(u, x) for u in us], sc))
 
 
 def check_categorical(ctx, r, n):
@@ -1723,7 +1780,7 @@ def check_types_geom(ctx, r, lines, cases):
             gu = [0.25 if g == 0.5 else g for g in gu]
             lines.append(f"geom {variant} {fl(eps)} {sens} {val(spec[k])} {bnd_tok(lo_b if lo_b is not None else -INF)} "
                          f"{bnd_tok(hi_b if hi_b is not None else INF)} " + " ".join(fl(u) for u in gu))
-            cases.append(("gout", spec, k, us, [sc.at_u(u, xs[k]) for u in us]))
+            cases.append(("gout", spec, k, us, [sc.at_u(u, xs[k]) for u in us], sc, xs[k]))
     # (ii)+(iii) exact masses of the atoms around both inputs (plain / truncated: monotone halves); folded: whole law
     if variant == "f":
         if s < 0.3:
@@ -1939,7 +1996,7 @@ def check_types(ctx, r, n):
             ctx.disagree("typed.driver", spec, out, None)
             continue
         if kind == "gout":
-            _, _, k, us, impl = cs
+            _, _, k, us, impl, sc, xval = cs
             for i, u in enumerate(us):
                 trio = w[1 + 3 * i: 4 + 3 * i]
                 if len(set(trio)) != 1:
@@ -1949,6 +2006,10 @@ def check_types(ctx, r, n):
                     ctx.count("geom_error_outcome_skipped")
                     continue
                 if int(trio[1]) != impl[i]:
+                    if near_impl_breakpoint(lambda uu: sc.at_u(uu, xval), u, int(trio[1]), avoid_half=True):
+                        ctx.boundary_skipped += 1
+                        ctx.count("boundary_skipped_impl_breakpoint_within_4ulp")
+                        continue
                     ctx.disagree(spec["family"] + ".randomise", {"spec": spec, "value": spec[k], "u": u}, int(trio[1]), impl[i],
                                  note="typed parameters / large magnitude")
                 else:
